@@ -44,9 +44,19 @@ def run_driver(lines, timeout=600):
         raise RuntimeError('driver: %d responses for %d requests (rc=%s) stderr=%s' % (len(out), len(lines), p.returncode, p.stderr.decode()[-2000:]))
     return out
 
+_DEFAULT_REPL = []
+def default_repl():
+    """the default --replacement text AS THE COMPILED PROGRAM HAS IT (harness op dump), so that a run of the CLI without -r and an in-process
+    configuration without a replacement mean the same thing whatever that text is"""
+    if not _DEFAULT_REPL:
+        try: _DEFAULT_REPL.append(json.load(open(os.path.join(BUILD, 'dump.json')))['consts']['RedactedString'])
+        except Exception: _DEFAULT_REPL.append('REDACTED')
+    return _DEFAULT_REPL[0]
+
 class Cfg:
     """One redaction configuration, renderable for both sides."""
-    def __init__(self, repl='REDACTED', nums=False, bools=False, ips=False, nss=False, eager=(), re='', encrypt=False, key=None):
+    def __init__(self, repl=None, nums=False, bools=False, ips=False, nss=False, eager=(), re='', encrypt=False, key=None):
+        if repl is None: repl = default_repl()
         self.repl = repl if isinstance(repl, bytes) else repl.encode()
         self.nums, self.bools, self.ips, self.nss = nums, bools, ips, nss
         self.eager = [e if isinstance(e, bytes) else e.encode() for e in eager]
@@ -77,7 +87,7 @@ class Cfg:
                 "key": b64(self.key) if self.key is not None else None}
     def cli_flags(self, keyfile=None):
         f = []
-        if self.repl != b'REDACTED': f += ['-r', self.repl.decode('utf-8', 'surrogateescape')]
+        f += ['-r', self.repl.decode('utf-8', 'surrogateescape')]      # always given: what the default text is, is not the business of any property
         if self.nums: f.append('-n')
         if self.bools: f.append('-b')
         if self.ips: f.append('-i')
